@@ -269,6 +269,9 @@ def judge_detail(ops, out):
         if name == "fault":
             prev = (0, 0, prev[2], prev[3])
             continue
+        if " wildclose=" in ln:
+            return ("%s: the library closed a descriptor it had not acquired (%s) — a descriptor of the "
+                    "application is gone" % (op, ln.split(" wildclose=")[1]), name + ":wild-close")
         m = LINE.match(ln)
         if not m:
             continue
